@@ -84,10 +84,13 @@ func hpSet(ias []addr.IA, mask int) map[addr.IA]struct{} {
 
 func c45Matrix(r *mc.Run) {
 	ctx := context.Background()
-	ias := []addr.IA{addr.MustParseIA("1-ff00:0:110"), addr.MustParseIA("1-ff00:0:111"), addr.MustParseIA("1-ff00:0:112"),
-		addr.MustParseIA("2-ff00:0:210")}
-	outsider := addr.MustParseIA("2-ff00:0:211")
-	peers := append(append([]addr.IA{}, ias...), outsider)
+	// The pool holds two pairs of ASes that differ only in the ISD (and pairs that differ only in the AS number);
+	// peers and local ASes additionally include an AS-number twin in a third ISD that is never a member and a
+	// completely foreign AS: a membership test that drops the ISD or the AS number confuses two of them.
+	ias := []addr.IA{addr.MustParseIA("1-ff00:0:110"), addr.MustParseIA("1-ff00:0:111"), addr.MustParseIA("2-ff00:0:110"),
+		addr.MustParseIA("2-ff00:0:111")}
+	peers := append(append([]addr.IA{}, ias...), addr.MustParseIA("3-ff00:0:110"), addr.MustParseIA("3-ff00:0:999"))
+	locals := append(append([]addr.IA{}, ias...), addr.MustParseIA("3-ff00:0:111"))
 	down := &seg.Meta{Type: seg.TypeDown, Segment: buildSeg(c27T0, 1, []hopSpec{{ia: ias[0], out: 1, signedAt: c27T0}, {ia: ias[1], in: 2, signedAt: c27T0}}, 0)}
 	down2 := &seg.Meta{Type: seg.TypeDown, Segment: buildSeg(c27T0, 2, []hopSpec{{ia: ias[0], out: 3, signedAt: c27T0}, {ia: ias[2], in: 4, signedAt: c27T0}}, 0)}
 	up := &seg.Meta{Type: seg.TypeUp, Segment: down2.Segment}
@@ -95,7 +98,7 @@ func c45Matrix(r *mc.Run) {
 	stored := []*seg.Meta{down}
 	report := func(key, format string, a ...any) { r.Violation("matrix/"+key, fmt.Sprintf(format, a...)) }
 
-	// single group: 4 owners x 16 x 16 x 16 role subsets, x 4 local ASes x 5 peers
+	// single group: 4 owners x 16 x 16 x 16 role subsets, x 5 local ASes x 6 peers
 	mc.ParallelFor(4*16, func(i int) {
 		owner, wm := ias[i/16], i%16
 		var n int64
@@ -106,8 +109,8 @@ func c45Matrix(r *mc.Run) {
 				g := &hiddenpath.Group{ID: gid, Owner: owner, Writers: hpSet(ias, wm), Readers: hpSet(ias, rm), Registries: hpSet(ias, gm)}
 				groups := map[hiddenpath.GroupID]*hiddenpath.Group{gid: g}
 				cfg := fmt.Sprintf("owner=%s writers=%04b readers=%04b registries=%04b", owner, wm, rm, gm)
-				for li, local := range ias {
-					localReg := gm>>li&1 == 1
+				for li, local := range locals {
+					localReg := li < 4 && gm>>li&1 == 1
 					for pi, peer := range peers {
 						isW := pi < 4 && wm>>pi&1 == 1
 						isR := pi < 4 && rm>>pi&1 == 1
@@ -209,12 +212,17 @@ func c45Matrix(r *mc.Run) {
 		r.CaseBulk(n, n)
 	})
 
-	// two groups: every pair of (role of the peer in the group, is the local AS a registry of it)
-	local, peer := ias[3], ias[1]
-	roles := []string{"owner", "writer", "reader", "registry", "none"}
-	mk := func(suffix uint16, role string, localReg bool) *hiddenpath.Group {
-		g := &hiddenpath.Group{ID: hiddenpath.GroupID{OwnerAS: ias[0].AS(), Suffix: suffix}, Owner: ias[0],
-			Writers: map[addr.IA]struct{}{ias[2]: {}}, Readers: map[addr.IA]struct{}{}, Registries: map[addr.IA]struct{}{ias[2]: {}}}
+	// two groups: every pair of (role of the peer in the group - or of its twin in another ISD, which gives the peer
+	// nothing - , is the local AS or only its twin a registry of it)
+	peer, peerTwin := ias[1], ias[3]   // 1-ff00:0:111 / 2-ff00:0:111
+	local, localTwin := ias[2], ias[0] // 2-ff00:0:110 / 1-ff00:0:110
+	third := addr.MustParseIA("3-ff00:0:555")
+	roles := []string{"owner", "writer", "reader", "registry", "none", "twin-is-owner", "twin-is-writer", "twin-is-reader",
+		"twin-is-registry"}
+	localKinds := []string{"registry", "not-registry", "twin-is-registry"}
+	mk := func(suffix uint16, role string, localKind string) *hiddenpath.Group {
+		g := &hiddenpath.Group{ID: hiddenpath.GroupID{OwnerAS: third.AS(), Suffix: suffix}, Owner: third,
+			Writers: map[addr.IA]struct{}{third: {}}, Readers: map[addr.IA]struct{}{}, Registries: map[addr.IA]struct{}{third: {}}}
 		switch role {
 		case "owner":
 			g.Owner = peer
@@ -225,26 +233,41 @@ func c45Matrix(r *mc.Run) {
 			g.Readers[peer] = struct{}{}
 		case "registry":
 			g.Registries[peer] = struct{}{}
+		case "twin-is-owner":
+			g.Owner = peerTwin
+			g.ID.OwnerAS = peerTwin.AS()
+		case "twin-is-writer":
+			g.Writers[peerTwin] = struct{}{}
+		case "twin-is-reader":
+			g.Readers[peerTwin] = struct{}{}
+		case "twin-is-registry":
+			g.Registries[peerTwin] = struct{}{}
 		}
-		if localReg {
+		switch localKind {
+		case "registry":
 			g.Registries[local] = struct{}{}
+		case "twin-is-registry":
+			g.Registries[localTwin] = struct{}{}
 		}
 		return g
 	}
+	member := func(role string) bool {
+		return role == "owner" || role == "writer" || role == "reader" || role == "registry"
+	}
 	var n int64
 	for _, r1 := range roles {
-		for _, l1 := range []bool{true, false} {
+		for _, l1 := range localKinds {
 			for _, r2 := range roles {
-				for _, l2 := range []bool{true, false} {
+				for _, l2 := range localKinds {
 					g1, g2 := mk(1, r1, l1), mk(2, r2, l2)
 					groups := map[hiddenpath.GroupID]*hiddenpath.Group{g1.ID: g1, g2.ID: g2}
 					st := &hpRecStore{ret: stored}
 					srv := hiddenpath.AuthoritativeServer{Groups: groups, DB: st, LocalIA: local}
 					ids := []hiddenpath.GroupID{g1.ID, g2.ID}
 					res, err := srv.Segments(ctx, hiddenpath.SegmentRequest{GroupIDs: ids, DstIA: ias[1], Peer: peer})
-					accept := r1 != "none" && r2 != "none" && l1 && l2
+					accept := member(r1) && member(r2) && l1 == "registry" && l2 == "registry"
 					n++
-					desc := fmt.Sprintf("group1: peer is %s, local registry=%v; group2: peer is %s, local registry=%v", r1, l1, r2, l2)
+					desc := fmt.Sprintf("peer %s local %s; group1: peer role %s, local %s; group2: peer role %s, local %s", peer, local, r1, l1, r2, l2)
 					if accept {
 						r.Outcome("matrix:two-groups-answered")
 						if err != nil || len(st.gets) != 1 || fmt.Sprint(st.gets[0].groups) != fmt.Sprint(ids) || len(res) != 1 {
@@ -274,6 +297,11 @@ var (
 	hpR  = addr.MustParseIA("1-ff00:0:113") // reader of G1 (and G4)
 	hpL  = addr.MustParseIA("1-ff00:0:114") // the registry under test
 	hpX  = addr.MustParseIA("2-ff00:0:210") // not in any group; start of S2
+	// the same AS numbers in another ISD: members of nothing (except hpL2, the only registry of G5)
+	hpO2 = addr.MustParseIA("2-ff00:0:110")
+	hpW3 = addr.MustParseIA("2-ff00:0:111")
+	hpR2 = addr.MustParseIA("2-ff00:0:113")
+	hpL2 = addr.MustParseIA("2-ff00:0:114")
 )
 
 type hpSeg struct {
@@ -342,6 +370,14 @@ func hpName(ia addr.IA) string {
 		return "L"
 	case hpX:
 		return "X"
+	case hpO2:
+		return "O'"
+	case hpW3:
+		return "W'"
+	case hpR2:
+		return "R'"
+	case hpL2:
+		return "L'"
 	}
 	return ia.String()
 }
@@ -389,6 +425,8 @@ func hpConfig(th bool) *hpCfg {
 	if th {
 		addGroup("G4", 4, hpSetOf(hpW), hpSetOf(hpR, hpW2), hpSetOf(hpL), true)
 	}
+	addGroup("G5", 5, hpSetOf(hpW), hpSetOf(hpR), hpSetOf(hpL2), true) // only the twin of the local AS is a registry
+	g5 := len(c.groupIDs) - 1
 	addGroup("Gunknown", 9, nil, nil, nil, false)
 	unknown := len(c.groupIDs) - 1
 
@@ -445,6 +483,8 @@ func hpConfig(th bool) *hpCfg {
 		hpReg{0, hpW2, 0},      // W2 is a writer of G2, not of G1
 		hpReg{0, hpR, 0},       // a reader is not a writer
 		hpReg{2, hpW, 0},       // the local AS is not a registry of G3
+		hpReg{g5, hpW, 0},      // only the local AS's twin in another ISD is a registry of G5
+		hpReg{0, hpW3, 0},      // the twin of G1's writer in another ISD is not a writer
 		hpReg{0, hpW, 3},       // not all down segments
 		hpReg{1, hpW2, 3},
 		hpReg{0, hpW, 4}, // does not verify
@@ -458,11 +498,11 @@ func hpConfig(th bool) *hpCfg {
 		c.nows = append(c.nows, c27T0.Add(3000*time.Second)) // all S0 versions are expired, S1/S2 are not
 	}
 	// requests used to observe a state
-	c.reqGroups = [][]int{{0}, {1}, {0, 1}, {1, 0}, {2}, {unknown}, {0, unknown}, {0, 2}}
+	c.reqGroups = [][]int{{0}, {1}, {0, 1}, {1, 0}, {2}, {unknown}, {0, unknown}, {0, 2}, {g5}}
 	if th {
 		c.reqGroups = append(c.reqGroups, []int{3}, []int{3, 1}, []int{0, 1, 3})
 	}
-	c.reqPeers = []addr.IA{hpO, hpW, hpW2, hpR, hpL, hpX}
+	c.reqPeers = []addr.IA{hpO, hpW, hpW2, hpR, hpL, hpX, hpO2, hpW3, hpR2}
 	c.reqDsts = []addr.IA{hpW, hpW2, hpR}
 	return c
 }
@@ -771,8 +811,8 @@ func hpClaimNames(cfg *hpCfg, e *hpEntry) []string {
 
 func TestC45(t *testing.T) {
 	r := mc.NewRun(t, "C45", mc.ModelChecking)
-	r.Rule = "Part A: every single-group configuration over 4 ASes (4 owners x 16 writer x 16 reader x 16 registry subsets) x 4 " +
-		"local ASes x 5 peers (one outside) x 6 registration payload kinds and 5 request shapes, plus all 100 two-group role " +
+	r.Rule = "Part A: every single-group configuration over 4 ASes (4 owners x 16 writer x 16 reader x 16 registry subsets) x 5 " +
+		"local ASes x 6 peers x 6 registration payload kinds and 5 request shapes (the pool has AS pairs differing only in the ISD resp. only in the AS number, plus never-member twins in a third ISD), plus all 729 two-group role " +
 		"combinations, against a recording store (each case is a distinct tuple). Part B: breadth-first search over all " +
 		"histories of Register(group, peer, payload) / clean-up events (until no new state appears) through the real " +
 		"RegistryServer + Storer + sqlite path database; a state is the dump of the database; in every reached state the " +
